@@ -247,9 +247,25 @@ local pok, ok, v = pcall(coroutine.resume, co, N) if not pok then error("corouti
 if coroutine.status(co) ~= "dead" then error("the coroutine is " .. coroutine.status(co) .. " after its body ended", 0) end
 if not ok then error(v, 0) end return v`,
 		func(n int) string { return fmt.Sprint(n) }, func(c Config) int { return c.CallStackSize }, false},
+	// the registry runs out while the frame of a function with many locals is laid out - for an ordinary call and for a
+	// tail call (which re-uses the caller's frame record)
+	"call_into_big_frame": {`local function big() local ` + bigLocals + ` = 1 return l0 end
+local function fill(n) if n == 0 then local r = big() return r end local a, b, c, d, e, f, g, h = 1, 2, 3, 4, 5, 6, 7, 8 return 1 + fill(n - 1) end return fill(N)`,
+		func(n int) string { return fmt.Sprint(n + 1) }, func(c Config) int { return (regLimit(c) - 150) / 10 }, true},
+	"tail_call_into_big_frame": {`local function big() local ` + bigLocals + ` = 1 return l0 end
+local function fill(n) if n == 0 then return big() end local a, b, c, d, e, f, g, h = 1, 2, 3, 4, 5, 6, 7, 8 return 1 + fill(n - 1) end return fill(N)`,
+		func(n int) string { return fmt.Sprint(n + 1) }, func(c Config) int { return (regLimit(c) - 150) / 10 }, true},
 	"concat_many": {`local t = {} for i = 1, N do t[i] = "x" end return #table.concat(t)`,
 		func(n int) string { return fmt.Sprint(n) }, func(c Config) int { return regLimit(c) / 2 }, true},
 }
+
+var bigLocals = func() string {
+	var p []string
+	for i := 0; i < 150; i++ {
+		p = append(p, fmt.Sprintf("l%d", i))
+	}
+	return strings.Join(p, ", ")
+}()
 
 func regLimit(c Config) int {
 	if c.RegistryMaxSize > c.RegistrySize {
